@@ -6,10 +6,18 @@
     (c01 VIA F E (amb KV…) CLK WHEN EVT T)
     (static N (c01 …))
 
-    VIA  ::= (via gen|slot|setup ENTRY)      (how the runtime is held: generic value, AmbientSlot, Setup::init_slot)
+    VIA  ::= (via gen|slot|setup|initrt ENTRY)   (how the runtime is held: generic value, AmbientSlot, Setup::init_slot,
+                                                  Setup::init_runtime)
     ENTRY ::= core | rt | rtemit | rtdyn | (hook K) | (hookevt TPLOPT K) | (macro N)
+           | (lvlmacro LEVEL N)                    emit::debug!/info!/warn!/error! at fixture N
+           | (evtmacro LM N VIA)                   emit::evt!/debug_evt!/…/error_evt! at fixture N, emitted by VIA
+           | (spanmacro attr|new LM mdl|nomdl)     #[emit::LM_span] fn / emit::new_LM_span!, with or without `mdl:`
+    LEVEL ::= debug | info | warn | error      LM ::= plain | LEVEL
+    VIA  ::= plain | tpl | (lvl LEVEL)         emit!(evt: e) | emit!(evt: e, "over {x}", x: 5) | LEVEL!(evt: e)
     F    ::= (leaf PRED) | (fnleaf PRED) | always | empty | (and F F) | (or F F) | (none) | (some F)
            | (ref F) | (boxed F) | (shared F) | (dynbox F) | (dynarc F) | (dynref F) | (internal F)
+           | (minlvl MIN DFLT) | (pathmap R…) | (kind span|metric) | (kindnew span|metric)
+             library leaf filters (R, MIN, DFLT as in Driver/C17.lean); they take a leaf number but record nothing
     PRED ::= (const B) | (mdl xM) | (haskey xK) | (keyis xK V) | (extent none|point|range) | (propsge N)
     E    ::= (leaf FL) | fnleaf | empty | (and E E) | (none) | (some E)
            | (wrapf F E) | (wrapfdyn F E) | (wrapm G E) | (wrapmdyn G E)
@@ -17,7 +25,7 @@
            | (rt F (amb KV…) CLK E) | (slot F (amb KV…) CLK E)
     FL   ::= true | false | (ge N)
     G    ::= id | (addprop xK V) | (prepend xK V) | (setmdl xM) | (settpl xT) | noextent | (setextent EXT)
-    KV   ::= (xK V)        V ::= (i INT) | (s xS)
+    KV   ::= (xK V)        V ::= (i INT) | (s xS) | (l LEVEL) | (d xS)      (typed level, Display-only value)
     CLK  ::= none | N      WHEN ::= nowhen | (when F)      TPLOPT ::= none | xT
     EVT  ::= (evt xMDL xTPL EXT (props KV…))      EXT ::= none | (point N) | (range N N)
     T    ::= flush timeout in nanoseconds
@@ -32,6 +40,7 @@
 -/
 import EmitModel.Base.Sexp
 import EmitModel.Model.Pipeline
+import EmitModel.Driver.C17
 
 namespace EmitModel.Driver.C01
 open EmitModel EmitModel.Pipeline
@@ -45,10 +54,16 @@ inductive Pred where
   | keyIs (k : String) (v : Val)
   | extentKind (k : Nat) -- 0 none, 1 point, 2 range
   | propsGe (n : Nat)
+  -- library leaf filters: their verdict is the model's, they record nothing
+  | minLvl (f : EmitModel.Level.MinF)
+  | pathMap (regs : List EmitModel.Level.Reg)
+  | kind (k : EmitModel.KindText.Kind)
 
-def lookupFirst (k : String) : List (String × Val) → Option Val
-  | [] => none
-  | (k', v) :: rest => if k' == k then some v else lookupFirst k rest
+def Pred.isLib : Pred → Bool
+  | .minLvl _ => true
+  | .pathMap _ => true
+  | .kind _ => true
+  | _ => false
 
 def Pred.holds : Pred → Evt → Bool
   | .const b, _ => b
@@ -61,6 +76,9 @@ def Pred.holds : Pred → Evt → Bool
     | some (.point _) => n == 1
     | some (.range _ _) => n == 2
   | .propsGe n, x => x.props.length ≥ n
+  | .minLvl f, x => minLevelLeaf f x
+  | .pathMap regs, x => pathMapLeaf regs x
+  | .kind k, x => kindLeaf k x
 
 inductive FlushB where
   | always (b : Bool)
@@ -104,6 +122,13 @@ def liftO {α : Type} (o : Option α) : P α := fun s => o.map fun a => (a, s)
 def val? : Sexp → Option Val
   | .list [.atom "i", n] => n.int?.map Val.int
   | .list [.atom "s", s] => s.str?.map Val.str
+  | .list [.atom "l", l] => (C17.level? l).map Val.lvl
+  | .list [.atom "d", s] => s.str?.map Val.disp
+  | _ => none
+
+def kind? : Sexp → Option EmitModel.KindText.Kind
+  | .atom "span" => some .span
+  | .atom "metric" => some .metric
   | _ => none
 
 def kv? : Sexp → Option (String × Val)
@@ -202,6 +227,18 @@ partial def flt? : Sexp → P Flt
   | .list [.atom "dynarc", f] => Flt.erased <$> flt? f
   | .list [.atom "dynref", f] => Flt.erased <$> flt? f
   | .list [.atom "internal", f] => Flt.internal <$> flt? f
+  | .list [.atom "minlvl", mn, df] => do
+    let f ← liftO (C17.minF? mn df)
+    Flt.leaf <$> newPred (.minLvl f)
+  | .list (.atom "pathmap" :: rs) => do
+    let regs ← liftO (rs.mapM C17.reg?)
+    Flt.leaf <$> newPred (.pathMap regs)
+  | .list [.atom "kind", k] => do
+    let k ← liftO (kind? k)
+    Flt.leaf <$> newPred (.kind k)
+  | .list [.atom "kindnew", k] => do
+    let k ← liftO (kind? k)
+    Flt.leaf <$> newPred (.kind k)
   | _ => fail
 
 partial def emt? : Sexp → P Emt
@@ -270,11 +307,40 @@ def evt? : Sexp → Option Evt
     pure ⟨m, t, e, ps⟩
   | _ => none
 
+/-- how the event value of an `*_evt!` macro is emitted -/
+inductive EvtVia where
+  | plain                     -- emit::emit!(rt, evt: e)
+  | tpl                       -- emit::emit!(rt, evt: e, "over {x}", x: 5)
+  | lvl (m : LevelMacro)      -- emit::<m>!(rt, evt: e)
+
+def levelMacro? : Sexp → Option LevelMacro
+  | .atom "debug" => some .debug
+  | .atom "info" => some .info
+  | .atom "warn" => some .warn
+  | .atom "error" => some .error
+  | _ => none
+
+def levelMacroOrPlain? : Sexp → Option LevelMacro
+  | .atom "plain" => some .plain
+  | s => levelMacro? s
+
+def evtVia? : Sexp → Option EvtVia
+  | .atom "plain" => some .plain
+  | .atom "tpl" => some .tpl
+  | .list [.atom "lvl", l] => (levelMacro? l).map EvtVia.lvl
+  | _ => none
+
+def lmName : LevelMacro → String
+  | .plain => "plain" | .debug => "debug" | .info => "info" | .warn => "warn" | .error => "error"
+
 inductive Entry where
   | plain (name : String)
   | hook (k : Nat)
   | hookEvt (tpl : Option String) (k : Nat)
   | macro (n : Nat)
+  | lvlMacro (m : LevelMacro) (n : Nat)
+  | evtMacro (m : LevelMacro) (n : Nat) (via : EvtVia)
+  | spanMacro (attr : Bool) (m : LevelMacro) (withMdl : Bool)
 
 structure Via where
   rtKind : String
@@ -292,11 +358,25 @@ def entry? : Sexp → Option Entry
     let k ← k.nat?
     pure (.hookEvt (some t) k)
   | .list [.atom "macro", n] => n.nat?.map Entry.macro
+  | .list [.atom "lvlmacro", l, n] => do
+    let m ← levelMacro? l
+    let n ← n.nat?
+    pure (.lvlMacro m n)
+  | .list [.atom "evtmacro", l, n, via] => do
+    let m ← levelMacroOrPlain? l
+    let n ← n.nat?
+    let via ← evtVia? via
+    pure (.evtMacro m n via)
+  | .list [.atom "spanmacro", .atom form, l, .atom md] => do
+    let m ← levelMacroOrPlain? l
+    let attr ← if form == "attr" then some true else if form == "new" then some false else none
+    let withMdl ← if md == "mdl" then some true else if md == "nomdl" then some false else none
+    pure (.spanMacro attr m withMdl)
   | _ => none
 
 def via? : Sexp → Option Via
   | .list [.atom "via", .atom k, e] =>
-    if k == "gen" || k == "slot" || k == "setup" then (entry? e).map fun e => ⟨k, e⟩ else none
+    if k == "gen" || k == "slot" || k == "setup" || k == "initrt" then (entry? e).map fun e => ⟨k, e⟩ else none
   | _ => none
 
 def Entry.name : Entry → String
@@ -305,6 +385,11 @@ def Entry.name : Entry → String
   | .hookEvt none _ => "hookevt"
   | .hookEvt (some _) _ => "hookevt-tpl"
   | .macro _ => "macro"
+  | .lvlMacro m _ => s!"{lmName m}!"
+  | .evtMacro m _ .plain => s!"{lmName m}_evt!"
+  | .evtMacro m _ .tpl => s!"{lmName m}_evt!+tpl"
+  | .evtMacro m _ (.lvl o) => s!"{lmName m}_evt!+{lmName o}!"
+  | .spanMacro attr m withMdl => s!"{if attr then "#" else "new_"}{lmName m}_span{if withMdl then "" else "-nomdl"}"
 
 def Via.name (v : Via) : String := v.rtKind ++ "/" ++ v.entry.name
 
@@ -346,6 +431,9 @@ def case? : Sexp → Option Case
 def renderVal : Val → String
   | .int i => "i" ++ toString i
   | .str s => "s" ++ hexOfBytes s.toUTF8.toList
+  | .lvl l => "?" ++ l.display
+  | .kind k => "?" ++ k.display
+  | .disp s => "?" ++ s
 
 def renderExt : Option Extent → String
   | none => "n"
@@ -384,24 +472,82 @@ def renderFlush (r : Bool × List (Nat × Nat)) : String :=
 
 def bucket (n : Nat) : String := if n == 0 then "0" else if n ≤ 2 then "1-2" else if n ≤ 6 then "3-6" else "7+"
 
+/-! ### the static call sites of harness/hcore/src/streams/c01 (`macro_fixtures()` and sites.rs) -/
+
+/-- template and call-site properties (in key order) of emit fixture `n` -/
+def fixture? : Nat → Option (String × List (String × Val))
+  | 0 => some ("fx0", [])
+  | 1 => some ("fx1 {a}", [("a", .int 1)])
+  | 2 => some ("fx2 {b} and {a}", [("a", .int (-7)), ("b", .str "bee")])
+  | 3 => some ("fx3", [("a", .str "s"), ("n", .int 0), ("z", .int 5)])
+  | _ => none
+
+/-- The case's event must start with the fixture's own properties; the rest is the `props:` base. -/
+def splitFixture (n : Nat) (x : Evt) : Option (List (String × Val) × List (String × Val)) :=
+  match fixture? n with
+  | some (tpl, fp) => if x.tpl == tpl && x.props.take fp.length == fp then some (fp, x.props.drop fp.length) else none
+  | none => none
+
+def sitesModule : String := "hcore::streams::c01::sites"
+def spanTpl : String := "sp {n}"
+def spanProps : List (String × Val) := [("n", .int 7)]
+/-- `ConstRng` fills with 0x2a: the ids every span of these fixtures gets -/
+def spanIds : List (String × Val) :=
+  [("trace_id", .disp (String.join (List.replicate 16 "2a"))), ("span_id", .disp (String.join (List.replicate 8 "2a")))]
+
+def spanModule : LevelMacro → String
+  | .plain => sitesModule ++ "::sp_plain"
+  | .debug => sitesModule ++ "::sp_debug"
+  | .info => sitesModule ++ "::sp_info"
+  | .warn => sitesModule ++ "::sp_warn"
+  | .error => sitesModule ++ "::sp_error"
+
+/-- The effect log of the emission step, or `none` when the line does not describe the call site it names. -/
+def emitLog (c : Case) (ρ : Nat → Evt → Bool) (μ : Nat → Evt → Evt) : Option (List Obs) :=
+  let x := c.evt
+  match c.via.entry with
+  | .plain _ => some (emit ρ μ c.rt none x)
+  | .hook k => some (hookEmit ρ μ c.rt c.callSite x.mdl x.tpl x.extent (x.props.drop k) (x.props.take k))
+  | .hookEvt tpl k => some (hookEmitEvent ρ μ c.rt c.callSite { x with props := x.props.drop k } tpl (x.props.take k))
+  | .macro _ => some (hookEmit ρ μ c.rt c.callSite x.mdl x.tpl x.extent [] x.props)
+  | .lvlMacro m n => do
+    let (fp, base) ← splitFixture n x
+    pure (macroEmit ρ μ c.rt c.callSite m x.mdl x.tpl x.extent base fp)
+  | .evtMacro m n via => do
+    if n == 2 then none
+    let (fp, base) ← splitFixture n x
+    let e := macroEvt m x.mdl x.tpl x.extent base fp
+    match via with
+    | .plain => pure (macroEmitEvt ρ μ c.rt c.callSite .plain e none [])
+    | .tpl => pure (macroEmitEvt ρ μ c.rt c.callSite .plain e (some "over {x}") [("x", .int 5)])
+    | .lvl o => pure (macroEmitEvt ρ μ c.rt c.callSite o e none [])
+  | .spanMacro _ m withMdl =>
+    if x.tpl != spanTpl || x.extent.isSome || x.props != spanProps then none
+    else if !withMdl && (x.mdl != spanModule m || c.callSite.isSome) then none
+    else some (spanMacro ρ μ c.rt c.callSite m x.mdl x.tpl spanProps spanIds ⟨x.mdl, "body", none, []⟩)
+
 def runCase (c : Case) : String :=
   let ρ : Nat → Evt → Bool := fun i x => (c.st.preds[i]?.map (·.holds x)).getD false
   let μ : Nat → Evt → Evt := fun g x => (c.st.maps[g]?.map (·.apply x)).getD x
   let φ : Nat → Nat → Bool := fun i t => (c.st.fls[i]?.map (·.holds t)).getD false
   let x := c.evt
   let fv := c.rt.filter.evalTrace ρ x
+  match emitLog c ρ μ with
+  | none => "bad-op"
+  | some log =>
+  -- library leaf filters record nothing
+  let isLib : Nat → Bool := fun i => (c.st.preds[i]?.map Pred.isLib).getD false
+  let vis : List Obs → List Obs := fun l => l.filter fun o => match o with | .flt i _ => !isLib i | _ => true
+  let fv := (fv.1, vis fv.2)
   let wv := match c.callSite with
-    | some w => renderVerdict (w.evalTrace ρ x)
+    | some w => let r := w.evalTrace ρ x; renderVerdict (r.1, vis r.2)
     | none => "-"
-  let log := match c.via.entry with
-    | .plain _ => emit ρ μ c.rt none x
-    | .hook k => hookEmit ρ μ c.rt c.callSite x.mdl x.tpl x.extent (x.props.drop k) (x.props.take k)
-    | .hookEvt tpl k => hookEmitEvent ρ μ c.rt c.callSite { x with props := x.props.drop k } tpl (x.props.take k)
-    | .macro _ => hookEmit ρ μ c.rt c.callSite x.mdl x.tpl x.extent [] x.props
-  let dlog := direct ρ μ c.rt x
+  let log := vis log
+  let dlog := vis (direct ρ μ c.rt x)
   let fl := c.rt.flush φ c.timeout
   let out := s!"fv={renderVerdict fv} wv={wv} emit={renderLog log} direct={renderLog dlog} flush={renderFlush fl}"
   let nd := (log.filterMap Obs.dlv?).length
+  let nlib := (c.st.preds.toList.filter Pred.isLib).length
   let trivial := c.st.fls.size == 0 && c.st.preds.size == 0
   let extSig := match x.extent, c.rt.clk with
     | some _, some _ => "own-wins"
@@ -409,7 +555,7 @@ def runCase (c : Case) : String :=
     | none, some _ => "clock"
     | none, none => "none"
   let sig := if trivial then "trivial" else
-    s!"via={c.via.name},cs={c.callSite.isSome},dlv={bucket nd},ext={extSig},amb={bucket c.rt.amb.length},nf={bucket c.st.preds.size},ne={bucket c.st.fls.size},nm={bucket c.st.maps.size},fl={fl.1}"
+    s!"via={c.via.name},cs={c.callSite.isSome},dlv={bucket nd},ext={extSig},amb={bucket c.rt.amb.length},nf={bucket c.st.preds.size},ne={bucket c.st.fls.size},nm={bucket c.st.maps.size},lib={min nlib 2},fl={fl.1}"
   s!"{out}\t{sig}"
 
 def runC01 (line : String) : String :=
@@ -429,6 +575,6 @@ def runStatic (line : String) : String :=
   | _ => "bad-op"
 
 def streams : List (String × (String → String)) :=
-  [("c01", runC01), ("c01_static", runStatic)]
+  [("c01", runC01), ("c01_static", runStatic), ("c17_macro", runC01)]
 
 end EmitModel.Driver.C01
